@@ -126,6 +126,7 @@ v('c11-f37-reverted', 'C11', 'C11/parser-keeps-no-parse-state', 'reset-per-parse
 v('c04-f38-reverted', 'C04', 'C04/extends-on-fresh-reflections-only', 'on_list', ('rogw/tranp/semantics/reflections.py', "extends(self.reflections.from_standard(Union).stack(node).extends(*known_types))", "extends(self.reflections.from_standard(Union).extends(*known_types))"))
 v('c17-f39-reverted', 'C17', 'C17/literal-decoding', 'concat:requoted', ('rogw/tranp/implements/transpiler/evaluator.py', "{self._requote(right[1:-1], right[0], quote)}", "{right[1:-1]}"))
 v('c10-f40-reverted', 'C10', 'C10/path-prefix-tests-anchored', 'Nodes.expand', ('rogw/tranp/syntax/node/query.py', "path.startswith(f'{cached}.')", "path.startswith(cached)"))
+v('c13-f45-reverted', 'C13', 'C13/joined-span-covers-all-parts', 'joined', ('rogw/tranp/implements/syntax/tranp/token.py', "		first = min(tokens, key=lambda token: (token.source_map.begin_line, token.source_map.begin_column))", "		first = min(others, key=lambda token: (token.source_map.begin_line, token.source_map.begin_column))"))
 # ---- C14 / C15 ----
 v('c14-key-renamed', 'C14', 'C14/record-keys-agree', 'Reflection', ('rogw/tranp/semantics/reflection/serializer.py', "				'origin': symbol.types.fullyname,", "				'org': symbol.types.fullyname,"))
 v('c14-via-from-origin', 'C14', 'C14/field-wiring', 'Options.via', ('rogw/tranp/semantics/reflection/serializer.py', "via = db[data['via']] if data['origin'] != data['via'] else None", "via = db[data['origin']] if data['origin'] != data['via'] else None"))
